@@ -166,6 +166,18 @@ impl Unifiable {
         // Anonymous variable $_ unifies with everything.
         if Unifiable::Anonymous == *other { return Some(Rc::clone(ss)); }
 
+        // The unify method of a function evaluates the function.
+        // If the other term is a function, and this term is not,
+        // call the function's unify method, so that a function is
+        // evaluated whichever side of the unification it is on.
+        if let Unifiable::SFunction{name: _, terms: _} = other {
+            match self {
+                Unifiable::SFunction{name: _, terms: _} |
+                Unifiable::Anonymous => {},
+                _ => { return other.unify(self, ss); },
+            }
+        }
+
         match self {
 
             // $_ unifies with everything.
